@@ -281,6 +281,70 @@ Proof.
       * eexists _, _. split; [reflexivity|]. now left.
 Qed.
 
+(** ---------------------------------------------------------------- from an arbitrary initial store
+    (the path DB is shared and may hold public segments, and DeleteExpired may
+    have removed rows: whatever it holds, the group sets evolve like this) *)
+Lemma put1_stored_sound b st g0 sg0 s g :
+  stored_under (put1 b st g0 sg0) s g -> stored_under st s g \/ (g = g0 /\ s = s_id sg0).
+Proof.
+  unfold stored_under. intros [v [gs [F H]]]. rewrite find_put1 in F.
+  destruct (N.eqb_spec s (s_id sg0)) as [Es|Es]; [|left; eauto].
+  destruct (find s st) as [[v0 gs0]|] eqn:F0.
+  - destruct (s_ver sg0 <=? v0)%Z; inversion F; subst v gs.
+    + destruct b; [left; eauto|]. apply In_add_group in H as [H|H]; [left; eauto | right; auto].
+    + apply In_add_group in H as [H|H]; [left; eauto | right; auto].
+  - inversion F; subst v gs. destruct H as [<-|[]]. right. auto.
+Qed.
+
+Lemma put1_stored_mono b st g0 sg0 s g :
+  stored_under st s g -> stored_under (put1 b st g0 sg0) s g.
+Proof.
+  unfold stored_under. intros [v [gs [F H]]]. rewrite find_put1.
+  destruct (s =? s_id sg0); [|eauto]. rewrite F.
+  destruct (s_ver sg0 <=? v)%Z; eexists _, _; (split; [reflexivity|]).
+  - destruct b; [assumption | apply In_add_group; now left].
+  - apply In_add_group. now left.
+Qed.
+
+Lemma put1_stored_new st g0 sg0 :
+  dropped st g0 sg0 = false -> stored_under (put1 true st g0 sg0) (s_id sg0) g0.
+Proof.
+  unfold dropped, stored_under. intros D. rewrite find_put1, N.eqb_refl.
+  destruct (find (s_id sg0) st) as [[v gs]|].
+  - destruct (s_ver sg0 <=? v)%Z; eexists _, _; (split; [reflexivity|]).
+    + cbn [andb] in D. apply negb_false_iff in D. now apply mem_n_In.
+    + apply In_add_group. now right.
+  - eexists _, _. split; [reflexivity | now left].
+Qed.
+
+Lemma run_stored_sound b ps : forall st s g,
+  stored_under (run_puts b st ps) s g ->
+  stored_under st s g \/ exists sg, In (g, sg) ps /\ s_id sg = s.
+Proof.
+  induction ps as [|[g0 sg0] t IH]; intros st s g H; [now left|].
+  cbn in H. destruct (IH _ _ _ H) as [H'|[sg [H1 H2]]].
+  - apply put1_stored_sound in H' as [H'|[-> ->]]; [now left|].
+    right. exists sg0. split; [now left | reflexivity].
+  - right. exists sg. split; [now right | assumption].
+Qed.
+
+Lemma run_stored_mono b ps : forall st s g,
+  stored_under st s g -> stored_under (run_puts b st ps) s g.
+Proof.
+  induction ps as [|[g0 sg0] t IH]; intros st s g H; [assumption|].
+  cbn. apply IH. now apply put1_stored_mono.
+Qed.
+
+Lemma run_stored_complete ps : forall st, known_puts st ps = false ->
+  forall g sg, In (g, sg) ps -> stored_under (run_puts true st ps) (s_id sg) g.
+Proof.
+  induction ps as [|[g0 sg0] t IH]; intros st K g sg H; [destruct H|].
+  cbn [known_puts fst snd] in K. apply orb_false_iff in K as [K1 K2]. cbn.
+  destruct H as [H|H].
+  - inversion H; subst. apply run_stored_mono. now apply put1_stored_new.
+  - now apply IH.
+Qed.
+
 (** ---------------------------------------------------------------- Register *)
 Lemma forallb_is_down segs :
   forallb is_down segs = true <-> forall sg, In sg segs -> s_type sg = type_down.
@@ -337,12 +401,15 @@ Proof. unfold puts_of. apply flat_map_app. Qed.
 Lemma In_puts_of cfg ops g sg : In (g, sg) (puts_of cfg ops) <-> registered cfg ops g sg.
 Proof.
   unfold puts_of, registered. rewrite in_flat_map. split.
-  - intros [[r|q] [Ho H]]; [|destruct H].
-    destruct (reg_okb cfg r) eqn:E; [|destruct H].
-    apply in_map_iff in H as [sg' [E' H]]. inversion E'; subst.
-    exists r. split; [assumption|]. split; [now apply reg_okb_allowed | auto].
-  - intros [r [Ho [A [Eg H]]]]. exists (OReg r). split; [assumption|].
-    apply reg_okb_allowed in A. rewrite A. apply in_map_iff. exists sg. subst g. auto.
+  - intros [[r|q|pg] [Ho H]]; [|destruct H|].
+    + destruct (reg_okb cfg r) eqn:E; [|destruct H].
+      apply in_map_iff in H as [sg' [E' H]]. inversion E'; subst.
+      left. exists r. split; [assumption|]. split; [now apply reg_okb_allowed | auto].
+    + destruct H as [H|[]]. inversion H; subst. right. auto.
+  - intros [[r [Ho [A [Eg H]]]]|[-> Ho]].
+    + exists (OReg r). split; [assumption|].
+      apply reg_okb_allowed in A. rewrite A. apply in_map_iff. exists sg. subst g. auto.
+    + exists (OPub sg). split; [assumption | now left].
 Qed.
 
 (** ---------------------------------------------------------------- Segments *)
@@ -469,8 +536,9 @@ Lemma exec_puts b cfg ops :
 Proof.
   induction ops as [|o t IH]; intros st; [reflexivity|].
   rewrite puts_of_cons, run_puts_app. unfold exec in *. cbn [fold_left]. rewrite IH. f_equal.
-  destruct o as [r|q]; cbn [step].
+  destruct o as [r|q|pg]; cbn [step].
   - rewrite <- register_snd. destruct (register b cfg r st). reflexivity.
+  - reflexivity.
   - reflexivity.
 Qed.
 
@@ -526,7 +594,7 @@ Lemma hist_ok_model b cfg ops : forall ps,
 Proof.
   induction ops as [|o t IH]; intros ps K; [reflexivity|].
   rewrite puts_of_cons, app_assoc in K.
-  cbn [trace]. destruct o as [r|q]; cbn [step].
+  cbn [trace]. destruct o as [r|q|pg]; cbn [step].
   - pose proof (register_snd b cfg r (R b ps)) as Hs.
     pose proof (register_fst b cfg r (R b ps)) as Hf.
     destruct (register b cfg r (R b ps)) as [res st'] eqn:Er. cbn [fst snd] in *.
@@ -548,6 +616,10 @@ Proof.
       * apply incl_b_incl. intros [s v] H. apply In_spec_answer in H. now apply get_complete.
       * apply nodup_keys_NoDup, NoDup_get, NoDup_R.
     + cbn [puts_of flat_map app] in *. rewrite app_nil_r in *. now apply IH.
+  - cbn [map hist_ok obs_of op_ok]. cbn [N.eqb andb].
+    replace (put1 b (R b ps) public_gid pg) with (R b (ps ++ puts_of cfg [OPub pg]))
+      by (cbn [puts_of flat_map app]; apply run_puts_snoc).
+    now apply IH.
 Qed.
 
 (** the narrow class: when the two stores are observably equal the oracle holds *)
